@@ -366,6 +366,25 @@ func init() {
 					dead = true
 				}
 				return r
+			case "mixed":
+				// many short rounds on fresh allocators: half of the goroutines ask for a few bytes, the other half for
+				// sizes that more than double each time (stale waiters at chunk boundaries)
+				R, G := int(vu(op[1])), int(vu(op[2]))
+				r, hung := vAllocGuard(120*time.Second, func() string {
+					for i := 0; i < R; i++ {
+						fa := NewAllocator(64, "verif")
+						res := vAllocStress(fa, G, 14, int64(2*i+1), 32)
+						fa.Release()
+						if res != fmt.Sprintf("ok %d", G*14) {
+							return fmt.Sprintf("round %d: %s", i, res)
+						}
+					}
+					return fmt.Sprintf("ok %d", R)
+				})
+				if hung {
+					dead = true
+				}
+				return r
 			}
 			return "badop"
 		}
@@ -415,6 +434,11 @@ func vAllocStress(a *Allocator, G, M int, seed int64, maxsz int) string {
 			<-start
 			for i := 0; i < M; i++ {
 				n := vStressSize(rng, maxsz)
+				if seed%2 == 1 && g%2 == 1 && i < 18 {
+					// every other goroutine asks for sizes that more than double each time: each request is larger
+					// than the chunk that would be added next, while the others keep asking for a few bytes
+					n = (24 << uint(i)) + rng.Intn(8)
+				}
 				id := g*M + i + 1
 				switch k := rng.Intn(10); {
 				case k < 6:
